@@ -22,6 +22,7 @@ def jobs_for(rng, tier):
     jobs += ce.full_device_jobs(rng, 8 if tier == "quick" else 48)
     jobs += ce.wide_batch_jobs(rng, 2 if tier == "quick" else 12)
     jobs += ce.huge_extent_jobs(rng, 1 if tier == "quick" else 6)
+    jobs += ce.restart_wide_jobs(rng, 2 if tier == "quick" else 10)
     return jobs
 
 
